@@ -350,6 +350,17 @@ def check_C18(tier, seed, res, builtins, log):
             cases.append(list(comb))
     # boundaries inside the gap (the predicate is never asked about them)
     cases += [[0xD800], [0xD7FF, 0xD900], [0xDFFF, 0xE001], [0xD800, 0xDFFF], [100, 0xDABC, 0xF000]]
+    # random boundary lists over the WHOLE scalar range (uniform, plane borders, powers of two, the critical positions):
+    # a generator that treats some region specially (skips it, batches it) is wrong exactly for predicates that change inside it
+    rng = random.Random(seed + 18)
+    borders = [k * 0x10000 + d for k in range(1, 17) for d in (-1, 0, 1)] + [2 ** k + d for k in range(1, 21) for d in (-1, 0, 1)] + positions
+    n_exact = len(cases)
+    for _ in range(150 if tier == 'quick' else 3000):
+        bs = set()
+        for _ in range(rng.randint(1, 6)):
+            r = rng.random()
+            bs.add(rng.choice(borders) if r < 0.35 else rng.randint(0, 0x10FFFF) if r < 0.85 else rng.randint(0, 0x400))
+        cases.append(sorted(b for b in bs if 0 <= b <= 0x10FFFF))
     ops = ['gen ' + ' '.join(map(str, c)) for c in cases]
     names = ['ALPHABETIC', 'ALPHANUMERIC', 'ASCII', 'ASCII_ALPHABETIC', 'ASCII_ALPHANUMERIC', 'ASCII_CONTROL', 'ASCII_DIGIT', 'ASCII_GRAPHIC',
              'ASCII_HEXDIGIT', 'ASCII_LOWERCASE', 'ASCII_PUNCTUATION', 'ASCII_UPPERCASE', 'ASCII_WHITESPACE', 'CONTROL', 'LOWERCASE', 'NUMERIC',
@@ -391,8 +402,8 @@ def check_C18(tier, seed, res, builtins, log):
             if got != preds[name_map[n]] and len(violations) < 5:
                 violations.append({'definition': None, 'site': 'generate_char_fn_ranges(' + n + ')', 'input': n, 'script': None,
                                    'what': 'real predicate %s: generator output differs from exhaustive enumeration' % n})
-    cov = {'evaluations': len(cases) + len(names), 'distinct_nontrivial': len(distinct), 'exhaustive': True,
-           'rule': 'all predicates defined by <= %d boundaries placed at %s, plus boundaries inside the surrogate gap, plus the 20 real predicates; distinct by output' % (maxb, positions),
+    cov = {'evaluations': len(cases) + len(names), 'distinct_nontrivial': len(distinct), 'exhaustive': True, 'exhaustive_cases': n_exact, 'random_boundary_lists': len(cases) - n_exact,
+           'rule': 'all predicates defined by <= %d boundaries placed at %s, plus boundaries inside the surrogate gap, plus random boundary lists over the whole scalar range (uniform, plane borders, powers of two), plus the 20 real predicates; distinct by output' % (maxb, positions),
            'samples': [{'boundaries': cases[min(9, len(cases) - 1)], 'output': impl[min(9, len(cases) - 1)]}]}
     return {'violations': violations, 'unresolved': unresolved, 'coverage': cov}
 
@@ -827,7 +838,11 @@ def check_C02(tier, seed, res, builtins, log):
         else:
             unresolved.append({'definition': corpus.lexer_text(d), 'def_json': pipeline.def_to_json(d), 'input': None, 'script': None, 'site': 'stage ' + chk,
                                'no_failing_input': True, 'what': 'correspondence no longer checks: %s %s' % (chk, detail)})
-    cov = {'programs': len(progs) + n_trees, 'evaluations': n_cmp + n_trees, 'distinct_nontrivial': len(pairs) + n_trees,
+    # class operators (`|`, `#`, `_`, sets, built-ins) denote exact sets: the class-expression stream of C11, here as a C02 obligation
+    v3, cov3 = class_expr_stream(tier, seed + 5, builtins, log)
+    violations += v3[:4]
+    cov = {'programs': len(progs) + n_trees + cov3['class_expression_programs'], 'evaluations': n_cmp + n_trees + cov3['class_boundary_points'], 'distinct_nontrivial': len(pairs) + n_trees,
+           'class_expression_programs': cov3['class_expression_programs'], 'class_expressions_exact': cov3['class_expressions_exact'],
            'exhaustive_small_trees': n_trees, 'small_tree_failures': len(failures),
            'samples': [{'base': corpus.lexer_text(pairs[0][0]), 'rewritten': corpus.lexer_text(pairs[0][1])}] if pairs else [{}]}
     return {'violations': violations, 'unresolved': unresolved[:4], 'coverage': cov}
@@ -1106,6 +1121,22 @@ def mutate_illformed(d, rng):
         out.append(('unknown_builtin', with_items(items[:i] + [('rule', it[1], ('alt', it[2], ('bi', 'nosuchbuiltin')), it[3])] + items[i + 1:])))
         out.append(('diff_operand', with_items(items[:i] + [('rule', it[1], ('diff', ('any',), ('str', [97, 98])), it[3])] + items[i + 1:])))
         out.append(('diff_operand_star', with_items(items[:i] + [('rule', it[1], ('diff', ('star', ('chr', 97)), ('chr', 98)), it[3])] + items[i + 1:])))
+        # the same three ill-formed atoms at varied syntactic positions: operands of `#` and `|` whose sibling already decides the result
+        # (empty left of `#`, full left of `|`), nested differences, under postfix operators, inside a `let` that is used, in a right context
+        EMPTY = ('diff', ('chr', 97), ('chr', 97))
+        for tag, bad in (('unbound_var', ('var', 'nosuchvar')), ('unknown_builtin', ('bi', 'nosuchbuiltin'))):
+            wrappers = [('alt', it[2], ('opt', bad)), ('cat', ('star', bad), it[2]), ('alt', ('diff', ('any',), bad), it[2]), ('alt', ('diff', bad, ('chr', 98)), it[2]),
+                        ('alt', ('diff', EMPTY, bad), it[2]), ('alt', ('diff', ('diff', ('set', [('r', 97, 99)]), ('set', [('r', 97, 122)])), bad), it[2]),
+                        ('alt', ('diff', ('diff', ('any',), bad), ('chr', 98)), it[2]), ('alt', ('diff', ('alt', ('any',), bad), ('chr', 98)), it[2]),
+                        ('alt', ('diff', ('any',), ('alt', ('chr', 98), bad)), it[2])]
+            for k, w in enumerate(wrappers):
+                out.append((tag + '@%d' % k, with_items(items[:i] + [('rule', it[1], w, it[3])] + items[i + 1:])))
+            out.append((tag + '@ctx', with_items(items[:i] + [('rule', it[1], it[2], ('alt', ('chr', 98), ('diff', EMPTY, bad)))] + items[i + 1:])))
+            out.append((tag + '@let', with_items(items[:i] + [('let', 'usedv', ('diff', EMPTY, bad)), ('rule', it[1], ('alt', it[2], ('var', 'usedv')), it[3])] + items[i + 1:])))
+        for k, bad in enumerate([('str', [97, 98]), ('plus', ('chr', 97)), ('cat', ('chr', 97), ('chr', 98)), ('eoi',), ('opt', ('chr', 97))]):
+            for j, w in enumerate([('diff', ('any',), bad), ('diff', bad, ('chr', 98)), ('diff', EMPTY, bad), ('diff', ('any',), ('alt', ('chr', 98), bad)),
+                                   ('diff', ('alt', ('any',), bad), ('chr', 98))]):
+                out.append(('diff_operand@%d.%d' % (k, j), with_items(items[:i] + [('rule', it[1], ('alt', w, it[2]), it[3])] + items[i + 1:])))
         out.append(('mixed', with_items(items + [('ruleset', 'Init', [('rule', 'simple', ('chr', 97), None)])])))
         out.append(('dup_var', with_items([items[0], ('let', 'dupv', ('chr', 97)), ('let', 'dupv', ('chr', 98))] + items[1:])))
     if sets:
